@@ -223,4 +223,125 @@ theorem score_fits_int32 (midi : List MidiCh) (alloc : Int) (mm : Nat) (chan : C
     have hl : (chan.users.length : Int) ≤ 128 := by omega
     omega
 
+/-! ## from the score to the allocation: the selection loop is an argmax, and an idle channel is taken without moving anybody -/
+
+theorem cast32_id (x : Int) (h1 : -2147483648 ≤ x) (h2 : x < 2147483648) : toSigned 32 (ofSigned 32 x) = x := by
+  unfold toSigned ofSigned
+  simp only [Nat.reducePow, Nat.reduceSub]
+  have hm : 0 ≤ x % ((4294967296 : Nat) : Int) := Int.emod_nonneg _ (by decide)
+  have hl : x % ((4294967296 : Nat) : Int) < 4294967296 := Int.emod_lt_of_pos _ (by decide)
+  omega
+
+/-- the selection loop returns the running best unless a later channel scores strictly higher, and what it returns is a maximum -/
+theorem selectFrom_spec (s : S) (ins : Timbre) (g : Nat → Int) : ∀ (l : List Nat) (best : Option Nat) (bs : Int),
+    (∀ a ∈ l, goodness s a ins = .ok (g a) ∧ -2147483648 ≤ g a ∧ g a < 2147483648) →
+    ∃ r, selectFrom s ins l best bs = .ok r ∧
+      ((r = best ∧ ∀ a ∈ l, g a ≤ bs) ∨ (∃ c ∈ l, r = some c ∧ bs < g c ∧ ∀ a ∈ l, g a ≤ g c)) := by
+  intro l
+  induction l with
+  | nil => intro best bs _; exact ⟨best, rfl, Or.inl ⟨rfl, by simp⟩⟩
+  | cons a rest ih =>
+    intro best bs h
+    have ha := h a (by simp)
+    have hrest : ∀ x ∈ rest, goodness s x ins = .ok (g x) ∧ -2147483648 ≤ g x ∧ g x < 2147483648 := fun x hx => h x (by simp [hx])
+    unfold selectFrom
+    rw [ha.1]
+    by_cases hgt : g a > bs
+    · simp only [hgt, if_true]
+      rw [cast32_id (g a) ha.2.1 ha.2.2]
+      obtain ⟨r, hr, hcase⟩ := ih (some a) (g a) hrest
+      refine ⟨r, hr, Or.inr ?_⟩
+      rcases hcase with ⟨hre, hall⟩ | ⟨c, hc, hre, hlt, hall⟩
+      · exact ⟨a, by simp, hre, hgt, by intro x hx; rcases List.mem_cons.1 hx with rfl | hx; exact Int.le_refl _; exact hall x hx⟩
+      · exact ⟨c, by simp [hc], hre, by omega, by intro x hx; rcases List.mem_cons.1 hx with rfl | hx; omega; exact hall x hx⟩
+    · simp only [hgt, if_false]
+      obtain ⟨r, hr, hcase⟩ := ih best bs hrest
+      refine ⟨r, hr, ?_⟩
+      rcases hcase with ⟨hre, hall⟩ | ⟨c, hc, hre, hlt, hall⟩
+      · exact Or.inl ⟨hre, by intro x hx; rcases List.mem_cons.1 hx with rfl | hx; omega; exact hall x hx⟩
+      · exact Or.inr ⟨c, by simp [hc], hre, hlt, by intro x hx; rcases List.mem_cons.1 hx with rfl | hx; omega; exact hall x hx⟩
+
+/-- the state the score theorems speak about: within the 10-minute bound, timers in range, users address existing MIDI channels -/
+def Wf (s : S) : Prop := ∀ (c : Nat) (chan : ChipCh), s.chip[c]? = some chan →
+  Young chan ∧ KoffOk chan ∧ chan.users.length ≤ 128 ∧ ∀ u ∈ chan.users, u.midCh < s.midi.length
+
+def scoreOf (s : S) (ins : Timbre) (a : Nat) : Int :=
+  match s.chip[a]? with
+  | some chan => goodnessP s.midi s.chanAlloc s.musicMode chan ins
+  | none => 0
+
+theorem goodness_ok (s : S) (ins : Timbre) (hw : Wf s) (a : Nat) (ha : a < s.chip.length) :
+    goodness s a ins = .ok (scoreOf s ins a) ∧ -2147483648 ≤ scoreOf s ins a ∧ scoreOf s ins a < 2147483648 := by
+  have hget : s.chip[a]? = some s.chip[a] := List.getElem?_eq_getElem ha
+  obtain ⟨hy, hk, hn, hm⟩ := hw a _ hget
+  have hf : s.chip[a].users.find? (fun jd => decide (jd.midCh ≥ s.midi.length)) = none := by
+    rw [List.find?_eq_none]
+    intro u hu
+    have := hm u hu
+    simp; omega
+  have hb := score_fits_int32 s.midi s.chanAlloc s.musicMode s.chip[a] ins hy hk hn
+  unfold goodness scoreOf
+  rw [hget]
+  simp only [hf]
+  exact ⟨trivial, by omega, by omega⟩
+
+/-- **C06: the channel a new note gets is one with the greatest score** (no fault, no wrap of the 32-bit cast) -/
+theorem selectChannel_argmax (s : S) (ins : Timbre) (hw : Wf s) (hne : 0 < s.chip.length) :
+    ∃ c, selectChannel s ins = .ok (some c) ∧ c < s.chip.length ∧ ∀ a, a < s.chip.length → scoreOf s ins a ≤ scoreOf s ins c := by
+  have hall : ∀ a ∈ List.range (liveChannels s), goodness s a ins = .ok (scoreOf s ins a) ∧ -2147483648 ≤ scoreOf s ins a ∧ scoreOf s ins a < 2147483648 :=
+    fun a ha => goodness_ok s ins hw a (by simpa [liveChannels] using ha)
+  obtain ⟨r, hr, hcase⟩ := selectFrom_spec s ins (scoreOf s ins) (List.range (liveChannels s)) none (-2147483647) hall
+  rcases hcase with ⟨_, hle⟩ | ⟨c, hc, hre, _, hmax⟩
+  · -- impossible: channel 0 scores above the initial -2147483647
+    exfalso
+    have h0 := hle 0 (by simpa [liveChannels] using hne)
+    have hget : s.chip[0]? = some s.chip[0] := List.getElem?_eq_getElem hne
+    obtain ⟨hy, hk, hn, _⟩ := hw 0 _ hget
+    have hb := score_fits_int32 s.midi s.chanAlloc s.musicMode s.chip[0] ins hy hk hn
+    unfold scoreOf at h0
+    rw [hget] at h0
+    simp only at h0
+    omega
+  · refine ⟨c, ?_, by simpa [liveChannels] using hc, fun a ha => hmax a (by simpa [liveChannels] using ha)⟩
+    unfold selectChannel
+    rw [hr, hre]
+
+/-- **C06: while a chip channel is idle, the new note gets an idle channel** — and (`prepare_idle_noop`) taking it moves nobody -/
+theorem new_note_takes_idle_channel (s : S) (ins : Timbre) (hw : Wf s) (a : Nat) (chanA : ChipCh)
+    (ha : s.chip[a]? = some chanA) (hidle : chanA.users = []) :
+    ∃ c chanC, selectChannel s ins = .ok (some c) ∧ s.chip[c]? = some chanC ∧ chanC.users = [] := by
+  have hlen : a < s.chip.length := by
+    rcases List.getElem?_eq_some_iff.1 ha with ⟨h, _⟩; exact h
+  obtain ⟨c, hsel, hc, hmax⟩ := selectChannel_argmax s ins hw (by omega)
+  have hgc : s.chip[c]? = some s.chip[c] := List.getElem?_eq_getElem hc
+  refine ⟨c, s.chip[c], hsel, hgc, ?_⟩
+  refine Classical.byContradiction fun hbusy => ?_
+  obtain ⟨hyc, hkc, _, _⟩ := hw c _ hgc
+  obtain ⟨_, hka, _, _⟩ := hw a _ ha
+  have hlt := idle_beats_busy s.midi s.chanAlloc s.musicMode chanA s.chip[c] ins hidle hka hbusy hyc hkc.1
+  have hle := hmax a hlen
+  unfold scoreOf at hle
+  rw [ha, hgc] at hle
+  simp only at hle
+  omega
+
+/-- taking an idle channel releases, kills and evacuates nobody: prepareChipChannelForNewNote leaves the whole state as it was -/
+theorem prepare_idle_noop (s : S) (c : Nat) (ins : Timbre) (chan : ChipCh) (hc : s.chip[c]? = some chan) (hu : chan.users = []) :
+    (prepareChipChannelForNewNote c ins).run s = .ok ((), s) := by
+  unfold prepareChipChannelForNewNote getChip
+  simp [hc, hu, StateT.run, bind, StateT.bind, get, getThe, MonadStateOf.get, StateT.get, pure, StateT.pure, Except.bind, Except.pure]
+
+/-- the hypotheses are met by a reachable state with idle channels: the fresh synthesizer (so the theorems are not vacuous) -/
+theorem wf_init : Wf Synth.init := by
+  intro c chan h
+  have hm : chan ∈ Synth.init.chip := List.mem_of_getElem? h
+  have : chan = ChipCh.fresh := by
+    simp only [Synth.init] at hm
+    exact List.eq_of_mem_replicate hm
+  subst this
+  refine ⟨?_, ?_, ?_, ?_⟩ <;> simp [Young, KoffOk, ChipCh.fresh]
+
+example : ∃ c chanC, selectChannel Synth.init Timbre.zero = .ok (some c) ∧ Synth.init.chip[c]? = some chanC ∧ chanC.users = [] :=
+  new_note_takes_idle_channel Synth.init Timbre.zero wf_init 3 ChipCh.fresh (by simp [Synth.init]) rfl
+
 end Opn.C06
